@@ -174,9 +174,6 @@ func randTree(r *rand.Rand, nLookups int) spec {
 	for i := 0; i < nm && i < len(modPool); i++ {
 		s.mods = append(s.mods, modPool[perm[i]])
 	}
-	if r.Intn(25) == 0 {
-		s.mods = append(s.mods, "environment")
-	}
 	nf := r.Intn(9)
 	var gfs []genFile
 	for i := 0; i < nf; i++ {
@@ -336,6 +333,7 @@ func gen(g *core.G) {
 	bad := []spec{
 		{mods: []string{"Mymod"}, via: "g"},
 		{mods: []string{"mymod", "mymod"}, via: "g"},
+		{mods: []string{"mymod", "environment"}, via: "g"},
 		{mods: nil, via: "d"},
 		{mods: []string{"mymod"}, via: "m:other"},
 		{mods: []string{"mymod"}, via: "g", files: []file{{segs: []string{"env", "types", "a.pp"}, body: body{kind: "alias", name: "A"}}, {segs: []string{"env", "types", "a.pp", "b.pp"}, body: body{kind: "bare"}}}},
